@@ -110,3 +110,22 @@ Proof.
     repeat split; try exact I1; try lra; lia.
   - cbn [fst snd]. repeat split; try lra; lia.
 Qed.
+
+(* ------------------------------------------------------------------ D. corners of the f-g theorem's hypotheses *)
+(* M = 0 (no central mass): whatever X and the G's are, the model's update is uniform motion x + dt v, v unchanged.
+   (kepler_hyp has no M > 0 hypothesis: fg_exact covers M = 0 and M < 0 as well.) *)
+Theorem zero_mass_uniform_motion (dt r0i ri G1 G2 G3 : R) (p : P6) :
+  let '(x, y, z, vx, vy, vz) := p in
+  fg_update RNum 0 dt r0i ri G1 G2 G3 p = (x + dt * vx, y + dt * vy, z + dt * vz, vx, vy, vz).
+Proof.
+  destruct p as [[[[[x y] z] vx] vy] vz]. unfold fg_update, fg_coeffs, fg_apply.
+  cbn [nneg nmul nsub nadd RNum]. repeat (f_equal; try ring).
+Qed.
+
+(* dt = 0 with X = 0 (G1 = G2 = G3 = 0): the update is the identity for every M, r0i, ri
+   (the code reaches X = 0 in one Newton step because its residual is 0 there). *)
+Theorem zero_step_identity (M r0i ri : R) (p : P6) : fg_update RNum M 0 r0i ri 0 0 0 p = p.
+Proof.
+  destruct p as [[[[[x y] z] vx] vy] vz]. unfold fg_update, fg_coeffs, fg_apply.
+  cbn [nneg nmul nsub nadd RNum]. repeat (f_equal; try ring).
+Qed.
